@@ -13,6 +13,8 @@ def main(tier, seed):
     jobs.append(("props.models", "deploy", ("C20",)))
     jobs.append(("props.models", "timeout_limit", ("C20",)))
     c.run_jobs(jobs)
+    if tier != "quick":
+        c.run_kani(['timeout_as_secs'])
     return c.finish(
         rule="tree: the real NodeTree::load / build_* run on every skeleton, optionally with two declared nodes given the same id (decision); node set, nesting, levels, first-child and next "
              "links, catch/timeout roots are compared with the declaration. deploy: the real ModelExecutor::deploy / rm, Store::deploy and ProcessExecutor::start on the memory store for "
